@@ -72,6 +72,16 @@ var l2CorpusPG = []corpusStmt{
 	{":many", `SELECT id FROM authors WHERE a.b.c = $1`, nil},
 	{":many", `SELECT public.authors.id FROM public.authors WHERE public.authors.name = $1`, nil},
 	{":exec", `TRUNCATE authors`, nil},
+	{":many", `SELECT id, NULL AS missing, 0 AS rank, 'x' AS tag FROM authors UNION ALL SELECT id, title, "order", title FROM books`, nil},
+	{":many", `SELECT id, name AS label FROM authors UNION SELECT id, title FROM books`, nil},
+	{":many", `SELECT id, name FROM authors INTERSECT SELECT id, title FROM books EXCEPT SELECT id, slug FROM venues`, nil},
+	{":one", `UPDATE authors SET bio = s.total::text FROM (SELECT author_id, count(*) AS total FROM books GROUP BY author_id) s WHERE s.author_id = authors.id RETURNING *`, nil},
+	{":one", `UPDATE authors SET bio = b.title FROM books b WHERE b.author_id = authors.id RETURNING *`, nil},
+	{":one", `UPDATE authors SET bio = b.title FROM books b WHERE b.author_id = authors.id RETURNING authors.*`, nil},
+	{":one", `DELETE FROM authors USING books b WHERE b.author_id = authors.id RETURNING *`, nil},
+	{":one", `INSERT INTO authors (id, name, tags) VALUES ($1, $2, $3) RETURNING *`, nil},
+	{":many", `SELECT id, name, coalesce(bio, '') AS bio, age, tags FROM authors`, nil},
+	{":many", `SELECT id, name, bio, age::bigint AS age, tags FROM authors`, nil},
 	{":many", `SELECT * FROM nodes`, nil},
 	{":many", `SELECT n.*, a.id AS aid FROM nodes n JOIN authors a ON a.id = n.id`, nil},
 	{":many", `SELECT id, "left", "right", "full", "like", "user", "binary" FROM nodes WHERE "left" = $1`, nil},
